@@ -301,6 +301,9 @@ ExecOp(S, p) ==
   ELSE
   LET op == ops[P.pc] IN
   CASE op.op = "spawn" ->          \* executor.rs handle_spawn
+         IF \E i \in 1..Len(S.obs.spawns) : S.obs.spawns[i] = <<p, P.pc>>
+         THEN Fail(S, p, "StackUnderflow")      \* executed a second time: the operands are gone
+         ELSE
          Emit([S EXCEPT !.spawning = @ \cup {p}, !.halt = TRUE,
                         !.obs.spawns = Append(@, <<p, P.pc>>)],
               [t |-> "SpawnAction", c |-> p, script |-> op.script,
